@@ -1,5 +1,6 @@
 import CspuzModel.Model.ExprIO
 import CspuzModel.Model.Graph
+import CspuzModel.Model.Crossable
 namespace Cspuz.Drv
 open Cspuz
 
@@ -72,6 +73,13 @@ def handleGraph : Sexp → Option Sexp
       if pa then singlePath g es pr (Frame.numVars H W)
       else singleCycle g es pr (Frame.numVars H W)
     some (progIds r)
+  | .list [.atom "crossable", h, w, sc, prim] => do
+    let H ← h.toNat?; let W ← w.toNat?
+    let sc ← sc.toBool?; let pr ← prim.toBool?
+    let f := Frame.fresh 0 H W
+    some (pyResult (fun (r : Prog × List Expr × List Expr) =>
+      .list [.atom "res", r.1.toSexp, .list (r.2.1.map Expr.toSexp ++ r.2.2.map Expr.toSexp)])
+      (connectedCrossable f sc pr (Frame.numVars H W)))
   | .list [.atom "grid", h, w] => do
     let g := Graph.grid (← h.toNat?) (← w.toNat?)
     some (.list [.ofNat g.n, edgesS g.edges])
